@@ -1597,7 +1597,7 @@ func (b *bsiGroup) coversAll(op pql.Token, value int64) bool {
 // baseValueBetween adjusts the min/max value to align with the range for Field.
 func (b *bsiGroup) baseValueBetween(lo, hi int64) (baseValueLo, baseValueHi int64, outOfRange bool) {
 	min, max := b.bitDepthMin(), b.bitDepthMax()
-	if hi < min || lo > max {
+	if hi < min || lo > max || lo > hi {
 		return 0, 0, true
 	}
 
